@@ -10,7 +10,7 @@ TRUSTED_BASE = ["/verif/spec/sae.py (tables transcribed from SAE J1939-21/-22)",
 def run(ctx):
     ctx.rule("R-LAYOUT", "every TP.CM/TP.DT builder and parser agrees bit by bit with the SAE tables", floor=40)
     ctx.rule("R-PAD", "padding: 0xFF to 7 data bytes (J1939-21); FD frames padded to the smallest legal length", floor=1)
-    ctx.rule("R-SEG-CONST", "J1939-21 DT packets carry 7 data bytes at offset 7*index, padded with 0xFF", floor=4)
+    ctx.rule("R-SEG-CONST", "J1939-21 DT packets carry 7 data bytes at offset 7*index, padded with 0xFF", floor=2)
     ctx.rule("R-SEQ-BASE", "sequence numbers are 1-based and in order", floor=2)
     ctx.rule("R-SEG-CONST-FD", "FD segments carry 60 data bytes, remainder last, padded with 0xFF", floor=3)
     ctx.rule("R-DISPATCH", "PGN and control-byte constants equal the SAE values", floor=15)
